@@ -1,7 +1,7 @@
 (* C15 - a stored BLOB reads back byte-for-byte whatever its size or input chunking.
    Statements only; every proof is `exact <lemma>` into C15_Blob/Proofs.v. *)
 From Coq Require Import List NArith ZArith Lia.
-From V Require Import Lib.Lex Lib.SMap Storage.Spec Gen.Params C15_Blob.Model C15_Blob.Proofs.
+From V Require Import Lib.Lex Lib.SMap Storage.Spec Gen.Params C15_Blob.Model C15_Blob.Proofs C15_Blob.Quota.
 Import ListNotations.
 Local Open Scope N_scope.
 
@@ -41,6 +41,15 @@ Theorem interrupted_not_complete :
   failed_midway r ->
   exists err, read_blob now' st' k = RFail err.
 Proof. exact (interrupted_not_complete_proved aeqb aeqb_refl). Qed.
+
+(* A write that reports success stored exactly the bytes the reader delivered, the reader ended
+   normally, and their number is within the quota: the quota is enforced on the whole stream, however
+   it is cut into Read() results. *)
+Theorem ok_write_is_within_quota :
+  forall (st st' : bstore A) k now descr dur quota reads e sz,
+  write_blob aeqb now st k descr dur quota reads e = (st', WOk sz) ->
+  sz = total_len reads /\ within quota sz /\ e = EndEOF.
+Proof. exact (ok_write_is_within_quota_proved aeqb). Qed.
 
 (* A write touches only partitions of its own key ... *)
 Theorem write_frame :
@@ -82,8 +91,14 @@ Example interrupted_nonvacuous :
   r = WFail 4 WQuota /\ read_blob 0%Z st1 k = RFail RCorrupted.
 Proof. vm_compute. split; reflexivity. Qed.
 
+Example over_quota_by_small_chunks_refused :
+  let k := KPersistent 1 2 7 in
+  snd (write_blob N.eqb 0 [] k 5 0 (Some 5) [mkChunk 3 1; mkChunk 3 2] EndEOF) = WFail 6 WQuota.
+Proof. vm_compute. reflexivity. Qed.
+
 Print Assumptions read_write_id.
 Print Assumptions interrupted_not_complete.
+Print Assumptions ok_write_is_within_quota.
 Print Assumptions write_frame.
 Print Assumptions key_isolation.
 Print Assumptions pkey_injective.
